@@ -12,6 +12,7 @@ import collections
 import re
 from ..core import *
 from ..logic import *
+from ..logic import neg_fact, unsat
 from ..effects import *
 from ..report import Obl, Rule
 from .. import build
@@ -24,6 +25,7 @@ RULES = [
     Rule('C18.R4', 'a failing bank load stores nothing into synth/setup state before returning', 8),
     Rule('C18.R5', 'every failing path of the four loaders leaves a non-empty error text', 4),
     Rule('C18.R6', 'a callback slot and its user-data slot are re-wired from a matching pair', 12),
+    Rule('C18.R11', 'what the VGM dumper overrides while it is the emulator (chip count, stop-at-loop-end) is re-applied from the setup when it no longer is', 4),
     Rule('C18.R10', 'a setter withholds its live store under the setup lock only for the fields the locked formats force', 3),
     Rule('C18.R9', 'every track / channel number handed to the sequencer by a setter is validated there and a refusal is reported', 3),
     Rule('C18.R8', 'every chip wrapper hands the requested chip family on to its base (OPN2::reset reads the applied family back from the chip)', 6),
@@ -515,6 +517,7 @@ def analyse(facts, tier):
     obls += r8_family_forwarded(facts)
     obls += r9_index_validated(facts)
     obls += r10_lock_scope(facts)
+    obls += r11_dumper_overrides(facts)
     return obls
 
 
@@ -848,4 +851,60 @@ def r7_auto_sentinel(facts):
                            'for %s = -1, 0, 1 the code takes %s: the explicit value 0 is replaced by the bank default the next time the setup is applied (file load, chip type change)' % (fld[0], ', '.join(sel))))
     if n < 3:
         raise build.AnalysisBroken('C18.R7: bank-default selections on lfoEnable / lfoFrequency / chipType not found (%d)' % n)
+    return out
+
+
+def r11_dumper_overrides(facts):
+    """(a) OPN2::reset clamps the live chip count to 2 for the VGM dumper; partialReset (every emulator switch and reset) stores
+    m_setup.numChips into the live count before it resets the synth, so the requested count is back with the next emulator;
+    (b) every function that forces stop-at-loop-end for the dumper (`setLoopHooksOnly(<hook installed>)` under the dumper-hooks test)
+    sets it from m_setup.loopHooksOnly in the other branch; (c) the setter records the request in m_setup.loopHooksOnly."""
+    out = []
+    pr = facts.fn('OPNMIDIplay::partialReset')
+    pos_store = pos_reset = None
+    for b, j, st in pr.cfg.stmts():
+        ap = assign_parts(st['s'])
+        if ap and short(strip(ap[0]).get('n', '')) == 'm_numChips' and mentions(ap[1], member_named('numChips')):
+            pos_store = (b, j, st)
+        for x in calls_in(st['s']):
+            if short(callee_name(x)) == 'reset' and 'OPN2::' in callee_name(x):
+                pos_reset = (b, j, st)
+    ok = pos_store is not None and pos_reset is not None and pr.cfg.stmt_before((pos_store[0], pos_store[1]), (pos_reset[0], pos_reset[1]))
+    out.append(Obl('C18.R11', pr.name, 'requested chip count re-applied before the synth is rebuilt', (pos_store or pos_reset or (0, 0, {'loc': pr.loc}))[2]['loc'],
+                   'discharged' if ok else 'finding',
+                   why='m_numChips = m_setup.numChips precedes OPN2::reset' if ok else
+                   'partialReset rebuilds the synth with the live chip count, which the VGM dumper has clamped to 2: after switching to another emulator opn2_getNumChipsObtained stays 2 although the accepted count is larger'))
+    n = 0
+    for fn in facts.all_fns():
+        if not fn.name.startswith('OPNMIDIplay::') or fn.tree is None:
+            continue
+        forced = []
+        restored = []
+        for b, j, st in fn.cfg.stmts():
+            for x in calls_in(st['s']):
+                if short(callee_name(x)) == 'setLoopHooksOnly' and x.get('a'):
+                    if mentions(x['a'][0], member_named('loopHooksOnly')):
+                        restored.append((b, j, st))
+                    else:
+                        forced.append((b, j, st))
+        for b, j, st in forced:
+            n += 1
+            # the restoring call sits under the negation of the condition that guards the forcing call
+            # the restoring call sits in the complementary branch: its guard facts contradict those of the forcing call
+            gfor = guard_facts(fn, b, st)
+            okr = any(unsat(gfor + guard_facts(fn, b2, st2)) for b2, j2, st2 in restored)
+            out.append(Obl('C18.R11', fn.name, 'stop-at-loop-end forced for the dumper, restored otherwise', st['loc'], 'discharged' if okr else 'finding',
+                           why='the other branch calls setLoopHooksOnly(m_setup.loopHooksOnly)' if okr else
+                           'the dumper branch switches stop-at-loop-end on and nothing switches it back: after the dumper was selected once, a looping song ends at its first loop end with every emulator'))
+    if n < 3:
+        raise build.AnalysisBroken('C18.R11: dumper branches that force stop-at-loop-end not found (%d)' % n)
+    st_ = None
+    for fn in exported(facts):
+        if fn.name == 'opn2_setLoopHooksOnly' and fn.tree is not None:
+            for b, j, st in fn.cfg.stmts():
+                ap = assign_parts(st['s'])
+                if ap and short(strip(ap[0]).get('n', '')) == 'loopHooksOnly' and 'Setup' in strip(ap[0]).get('n', ''):
+                    st_ = st
+            out.append(Obl('C18.R11', fn.name, 'request recorded in the setup', st_['loc'] if st_ else fn.loc, 'discharged' if st_ else 'finding',
+                           why='m_setup.loopHooksOnly is stored' if st_ else 'the setter changes the sequencer only: the value cannot be re-applied after the dumper has overridden it'))
     return out
